@@ -280,6 +280,11 @@ func ComposeCheck(env *core.Env, rep *core.Report, k int, models ...string) map[
 		if strings.HasSuffix(m, "3") {
 			w, to = 8, 30*time.Minute
 		}
+		if strings.HasSuffix(m, "_killed") || strings.HasSuffix(m, "_refused") {
+			mc := core.MustFail(env, core.TLCOpts{Module: "Taskctl", Config: "Taskctl_" + m + ".cfg", Workers: w, Timeout: to})
+			info["Taskctl_"+m] = map[string]interface{}{"distinct": mc.Distinct, "generated": mc.Generated, "result": "reachability control of the cancellation part (a Cancel call returns with interrupted work behind it / a run is refused): " + mc.Violated + " violated as required"}
+			continue
+		}
 		if strings.HasSuffix(m, "_errlate") {
 			mc := core.MustFail(env, core.TLCOpts{Module: "Taskctl", Config: "Taskctl_" + m + ".cfg", Workers: w, Timeout: to})
 			info["Taskctl_"+m] = map[string]interface{}{"distinct": mc.Distinct, "generated": mc.Generated, "result": "negative control (a failing stage stores its Error status, then records the graph's error: a second loop over the same included pipeline returns in between): " + mc.Violated + " violated"}
